@@ -7,7 +7,7 @@ OWNERS = {
     "var_order_is_usize_order": ["C06", "C07"], "term_eq_is_usize_eq": ["C06", "C07", "C01", "C02", "C03"], "bddnode_eq_is_fieldwise": ["C06", "C14"],
     "var_is_constant": ["C13", "C12"], "compare_inf_truth_table": ["C02", "C03"], "model_counts": ["C13"],
     "outlined_min_max": ["C06", "C07", "C13", "C20"], "outlined_pow2": ["C13"], "outlined_then_some_and_result_and": ["C20", "C04"],
-    "outlined_conversions": ["C18", "C05"], "outlined_slice_ops_bounded": ["C13", "C20", "C04", "C18"], "no_inf_inconsistency_truth_table": ["C04"],
+    "outlined_conversions": ["C18", "C05"], "no_inf_inconsistency_truth_table": ["C04"],
 }
 _res = {}
 
